@@ -8,8 +8,13 @@
   way: a `Stream` pulls each item from its iterator at most once and in order; `IoInput` reads `bytes[c]` at cursor `c`
   whatever its reader position was before.
   Spans: the three span disciplines and their re-basing are `Env.mkSpan` (theorems in `Proofs/C07.lean`).
+
+  The parser core itself (last section, lemmas in `Proofs/Lemmas/KindSim.lean`): the machine touches the input kind only
+  through `Env.mkSpan` / `Env.off`, and the run under ANY kind is the run under the index-based kind with every span and
+  slice offset re-based afterwards — for every grammar, mode, fuel and error type (`c10_kind_invariant`).
 -/
 import ChumskyModel.Model.Input
+import ChumskyModel.Proofs.Lemmas.KindSim
 
 namespace Chumsky
 open Input
@@ -295,6 +300,48 @@ example : replay (streamImpl 2) [0, 0, 1, 2, 1, 3, 5] (streamBegin [97, 98, 99])
 example : replay ioImpl [0, 1, 0, 2, 3, 1] (ioBegin [7, 8, 9]) [0] =
           replay (listImpl [7, 8, 9]) [0, 1, 0, 2, 3, 1] () [0] := by decide
 
+/-! ### the parser core: any kind = the index-based kind, re-based -/
+
+/-- **C10 (parser core).** `env` presents the tokens index-based (`&[T]`); `env'` presents the same tokens under any other
+    kind (`&str` byte offsets, `Input::map` with arbitrary per-token spans `ts` and end-of-input span `e`). For every grammar
+    (`constOk`: its literal constants `to(v)` / `with_ctx(v)` / fallback values contain no span — a span-valued constant is
+    returned unchanged under every kind, which is the one thing re-basing would move), every mode, fuel and error type:
+    `parse`/`check` under `env'` is the index-based result with every span (in values and in errors) mapped through
+    `env'.mkSpan` and every slice offset through `env'.off` — the documented re-basing and nothing else. -/
+theorem c10_kind_invariant (env : Env) (hs : env.kind = .slice) (k : InKind) (ts : List (Nat × Nat)) (e : Nat × Nat)
+    (hd : constOkL env.defs = true) (n : Nat) (m : Mode) (g : G) (hg : g.constOk = true) :
+    let env' : Env := { env with kind := k, tspans := ts, eoi := e }
+    parseTop n env' m g = (parseTop n env m g).mapSp env'.rebase :=
+  parseTop_kindSim_partial' env hs k ts e hd n m g hg
+
+/-- … from every start state, for the machine itself -/
+theorem c10_kind_invariant_run (env : Env) (hs : env.kind = .slice) (k : InKind) (ts : List (Nat × Nat)) (e : Nat × Nat)
+    (hd : constOkL env.defs = true) (n : Nat) (m : Mode) (g : G) (hg : g.constOk = true) (st : St) :
+    let env' : Env := { env with kind := k, tspans := ts, eoi := e }
+    run n env' m g (st.mapSp env'.rebase) = (run n env m g st).mapSp env'.rebase :=
+  run_kindSim_partial' env hs k ts e hd n m g hg st
+
+/-- consequently acceptance and the number of reported errors do not depend on the representation -/
+theorem c10_same_acceptance (env : Env) (hs : env.kind = .slice) (k : InKind) (ts : List (Nat × Nat)) (e : Nat × Nat)
+    (hd : constOkL env.defs = true) (n : Nat) (m : Mode) (g : G) (hg : g.constOk = true) :
+    let env' : Env := { env with kind := k, tspans := ts, eoi := e }
+    (match parseTop n env' m g, parseTop n env m g with
+      | .result r' _, .result r _ => r'.output.isSome = r.output.isSome ∧ r'.errs.length = r.errs.length
+      | .panic w', .panic w => w' = w
+      | .oof, .oof => True
+      | _, _ => False) := by
+  intro env'
+  have h := c10_kind_invariant env hs k ts e hd n m g hg
+  simp only at h
+  rw [h]
+  cases parseTop n env m g with
+  | result r f => simp [TopOut.mapSp]
+  | panic w => simp [TopOut.mapSp]
+  | oof => simp [TopOut.mapSp]
+
+/-- the `constOk` proviso is needed: a span-valued constant is not re-based by the real parsers either -/
+example : (G.to (.span 0 1) .empty).constOk = false := by decide
+
 #print axioms replay_agrees
 #print axioms replay_locs
 #print axioms stream_sim
@@ -308,4 +355,7 @@ example : replay ioImpl [0, 1, 0, 2, 3, 1] (ioBegin [7, 8, 9]) [0] =
 #print axioms mapped_sim
 #print axioms c10_mapped_span_peek_harmless
 #print axioms c10_mapped_io_any_schedule
+#print axioms c10_kind_invariant
+#print axioms c10_kind_invariant_run
+#print axioms c10_same_acceptance
 end Chumsky
